@@ -29,6 +29,12 @@ CHECKS = {
  "C12": dict(cat="exploration", tech="runtime monitoring across N fresh processes (fresh map-iteration seeds): hashes of all outputs, diagnostics and exit status compared; re-run monitored with mtime/inode snapshot and write events",
    text="All N runs identical and the re-run touched nothing, for the packages explored. A two-outcome order dependence escapes N runs with probability 2^-(N-1) (N=5 quick, 25 thorough).",
    note="Trusted: same absolute paths for the runs of one package; sha256.", ref="§5 C12"),
+ "C16": dict(cat="fault_enumeration", tech="fault enumeration over cut points: every prefix of small streams and every cut around 64 KiB multiples / block headers of large ones, read by generated C++ (asserts on, NDEBUG, ASan+UBSan) and Python under a process monitor; prefix-of-reference oracle on the delivered NDJSON lines",
+   text="Every enumerated proper prefix was reported as an error without crash, sanitizer report or wrong delivered value (after two repairs of coded_stream.h found by this check). Enumeration covers the listed streams, not all streams.",
+   note="Trusted: reference codec offsets; unit-buffered NDJSON output of the harness driver; sanitizers only see what red zones see (the value oracle is the deciding one).", ref="§5 C16"),
+ "C18": dict(cat="exploration", tech="exhaustive enumeration of import graphs (<= 3 packages, all permutations of import lists; 4 packages sampled/all) run through the real CLI, compared with a reference resolver; order-invariance monitor on exit, parsed-namespace log and normalised model dump",
+   text="Exhaustive for <= 3 packages incl. self loops; 4 packages sampled in quick and exhaustive in thorough; special layouts around the nesting limit. One known finding (symlinked directory).",
+   note="Trusted: reference resolver (cycle / conflict / depth) written from the property text; a package exactly at the limit is don't-care.", ref="§5 C18"),
 }
 NA_REASON = "check not built yet in this session (work in progress, see DESIGN.md §5 for the planned monitor)"
 
